@@ -58,7 +58,7 @@ fn spec(t: Tier) -> Spec {
     Spec {
         id: "C19",
         level: "model_checking",
-        rule: format!("every history of <= {} child outcomes over {{exit 0,1,2,125,255; SIGTERM, SIGKILL, the real-time signals 34 and 64; exec failing with ENOENT, EACCES, ENOEXEC, ENOTDIR}} is injected (hook H2) into the real xargs_main run with -n1 (and -n2) over enough input; exit status and the number of invocations started must equal the reference function (0 / 123 / 124 / 125 / 126 / 127, stop at once, continue past 1..125); state = (sticky failed flag from hook H3 | terminated), transitions = outcomes; scale slice: histories of 300 and 1000 invocations, successful except for each outcome at the first, second, 150th, 256th, 257th, last-but-one and last position, combined with a second failure (exit 1 early, exit 255 last, exit 3 at #260); xargs without a command (its own echo) with standard output /dev/full or a pipe whose reader has gone: 123 or 1, never a panic or 0; own errors (bad option values, unterminated quote, argument too long) must give 1; real-children slice: histories <= 3 over {{0,1,255,SIGTERM,SIGKILL,signal 34,unlink-self,chmod-self}} with a real recorder child must give the same statuses", bounds(t)),
+        rule: format!("every history of <= {} child outcomes over {{exit 0,1,2,125,255; SIGTERM, SIGKILL, the real-time signals 34 and 64; exec failing with ENOENT, EACCES, ENOEXEC, ENOTDIR}} is injected (hook H2) into the real xargs_main run with -n1 (and -n2) over enough input; exit status and the number of invocations started must equal the reference function (0 / 123 / 124 / 125 / 126 / 127, stop at once, continue past 1..125); state = (sticky failed flag from hook H3 | terminated), transitions = outcomes; scale slice: histories of 300 and 1000 invocations, successful except for each outcome at the first, second, 150th, 256th, 257th, last-but-one and last position, combined with a second failure (exit 1 early, exit 255 last, exit 3 at #260); xargs without a command (its own echo) with standard output /dev/full or a pipe whose reader has gone: 123 or 1, never a panic or 0; own errors (bad option values, unterminated quote, argument too long) must give 1; real-children slice: histories <= 3 over {{0,1,255,SIGTERM,SIGKILL,signal 34,SIGSEGV and SIGABRT with a core dump,unlink-self,chmod-self}} with a real recorder child must give the same statuses", bounds(t)),
         bound: json!({"history_len": bounds(t), "outcomes": OUTCOMES.iter().map(|o| oname(*o)).collect::<Vec<_>>()}),
         assumptions: vec!["child statuses 126..254 are not judged".into()],
         shards: 0,
@@ -295,7 +295,7 @@ fn builtin_echo_unwritable(ctx: &mut Ctx) {
 fn real_children(ctx: &mut Ctx) {
     use std::io::Write;
     let maxlen = ctx.tier.pick(2, 3);
-    let script = ["0", "1", "255", "s15", "s9", "s34", "u", "x"];
+    let script = ["0", "1", "255", "s15", "s9", "s34", "c11", "c6", "u", "x"];
     let src = crate::engine::self_bin_dir().join("vrec");
     let copy = ctx.sbx.join(".mc-vrec-copy");
     let log = ctx.sbx.join(".mc-vrec.log");
@@ -342,6 +342,8 @@ fn real_children(ctx: &mut Ctx) {
                 "s15" => ch.push(Child::Signal(15)),
                 "s9" => ch.push(Child::Signal(9)),
                 "s34" => ch.push(Child::Signal(34)),
+                "c11" => ch.push(Child::Signal(11)),
+                "c6" => ch.push(Child::Signal(6)),
                 c => ch.push(Child::Exit(c.parse().unwrap())),
             }
         }
@@ -373,6 +375,14 @@ fn real_children(ctx: &mut Ctx) {
     }
     let _ = std::fs::remove_file(&copy);
     let _ = std::fs::remove_file(&log);
+    // core files the dumping children may have left
+    if let Ok(rd) = std::fs::read_dir(&ctx.sbx) {
+        for e in rd.flatten() {
+            if e.file_name().to_string_lossy().starts_with("core") {
+                let _ = std::fs::remove_file(e.path());
+            }
+        }
+    }
 }
 
 fn replay(case: &Value, ctx: &mut Ctx) -> Option<String> {
